@@ -11,6 +11,8 @@ from ..peer import ScriptPeer, tag_payload, EPS_FRAC, D0
 from ..proto import HOST
 
 LETTERS = ['valid', 'drop', 'valid@.6T', 'frag2@.4T']
+PRIOR = {'none': None, 'exhausted': ['drop'] * 4, 'rejected@.5T': ['exc@.5T'], 'fragments': ['frag2@.4T'],
+         'garbage': ['garbage', 'valid']}
 TOL = 1e-9
 
 
@@ -31,6 +33,23 @@ def run_one(cfg, ctx, fp=True):
     inv.set_keep_alive(cfg['ka'])
     if fp:
         ctx.fp = lambda: fingerprint(loop, (inv._protocol, inv))
+    # non-initial state: an earlier request on the same object, the callers follow at once
+    pri = PRIOR.get(cfg.get('prior', 'none'))
+    if pri:
+        peer.ctx = None
+        peer.default_letter = 'valid'
+        peer.forced = list(pri)
+
+        async def first():
+            try:
+                await inv.read_sensor('modbus-999')
+            except BaseException:  # noqa: BLE001
+                pass
+        loop.run(first())
+        peer.forced = []
+        peer.ctx = ctx
+        del peer.sent[:]
+    t_start = loop.time()
     offs = [0.0] + [ctx.choose(f'start{i}', offsets(T)) for i in range(1, N)]
     res = {}
 
@@ -122,7 +141,8 @@ def job(j):
         choices, cause = lst[0]
         o2 = run_one(cfg, Ctx(choices), fp=False)
         letters = sorted({l for _, _, _, l in o2['sent']} - {'valid'})
-        key = f"{clause}/{cfg['transport']}/ka={int(cfg['ka'])}/{'+'.join(letters) or 'no-faults'}"
+        key = f"{clause}/{cfg['transport']}/ka={int(cfg['ka'])}/{'+'.join(letters) or 'no-faults'}" + \
+            (f"/after:{cfg['prior']}" if cfg.get('prior', 'none') != 'none' else '')
         if not any(c == clause for c, _ in monitor(cfg, o2)):
             key = f"{clause}/{cfg['transport']}/ka={int(cfg['ka'])}/order-dependent"
             cause = f'{cause}; ' + 'failed during exploration but not on a fresh replay: the outcome depends on earlier executions in the same process (state outside the objects under test leaks between executions)'
@@ -149,6 +169,11 @@ def run(tier, seed, rep):
             else:
                 jobs.append((dict(transport=tr, ka=ka, T=1, R=1, N=3), 'deviations', 3, ()))
                 jobs.append((dict(transport=tr, ka=ka, T=1, R=2, N=2), 'deviations', 4, ()))
+    for tr in ('udp', 'tcp'):
+        for ka in (False, True):
+            for prior in (('exhausted', 'rejected@.5T', 'fragments', 'garbage') if tier == 'thorough' else ('rejected@.5T', 'fragments')):
+                jobs.append((dict(transport=tr, ka=ka, T=1, R=1, N=2, prior=prior), 'product' if tier == 'thorough' else 'deviations',
+                             None if tier == 'thorough' else 3, ()))
     k = seed % len(jobs)
     jobs = jobs[k:] + jobs[:k]
     total = Stats()
